@@ -31,8 +31,9 @@ def justified : List (String × String × Nat × List String) := [
   -- smartclip.Geometry returns `clip.Geometry(box, g)` for every value with Dimensions() != 2
   -- before the switch; the five kinds named are exactly those that can have dimension 2
   ("clip/smartclip", "Geometry", 1, ["Bound", "Collection", "MultiPolygon", "Polygon", "Ring"]),
-  -- Encoder.Encode's first switch rewrites Ring and Bound to Polygon before this second switch
-  ("encoding/internal/wkbcommon", "Encoder.Encode", 2,
+  -- Encoder.encode's first switch rewrites Ring and Bound to Polygon before this second switch
+  -- (since fix 968afdb the dispatch lives in `encode`; `Encode` keeps only the top-level nil rule)
+  ("encoding/internal/wkbcommon", "Encoder.encode", 2,
     ["Collection", "LineString", "MultiLineString", "MultiPoint", "MultiPolygon", "Point", "Polygon"])
 ]
 
